@@ -41,7 +41,14 @@ func (c *Client) keepaliveLoop(ctx context.Context) error {
 	for {
 		select {
 		case <-ticker.C:
-			if err := c.Ping(); err != nil {
+			// Ping() must not be used here: if the client is
+			// terminated, it waits for all client's goroutines,
+			// i.e. also for this one.
+			err, terminated := c.ping()
+			if terminated {
+				return nil
+			}
+			if err != nil {
 				return err
 			}
 
